@@ -5,17 +5,26 @@
 //!
 //! script := k  mod{k'}  inj*                     k' = 2 + k mod 3 modules; (k/3)%5 = v in 1..k': also run variant v-1
 //! mod    := catch stages bud  progs progs progs  lp(end)     catch odd: Stereotyp.on_panic_catch; 1 + stages mod 3 stages;
-//!                                                bit 1+id of catch: task id is handed to current().join() instead of try_join()
+//!                                                bit 1+id of catch: task id is handed to current().join() instead of try_join();
+//!                                                bits 4..7 of catch: the other four Stereotyp flags (on_panic_drop, on_panic_restart,
+//!                                                on_panic_drop_submodules, on_panic_inform_parent) -- set, never read by des
 //! progs  := n lp(prog){n}                        start programs (by incarnation), message programs (by payload), tasks
-//! prog   := (op a b c)*                          op%13: 0 log c | 1 send_in(gate a odd ? "far" : "out", b ns, payload c)
+//! prog   := (op a b c)*                          op%16: 0 log c | 1 send_in(gate a odd ? "far" : "out", b ns, payload c)
 //!                                                | 2 schedule_in(b ns, payload c) | 3 sleep b ns (tasks) | 4 shutdown()
 //!                                                | 5 shutdow_and_restart_in(b ns) | 6 panic!() | 7 quiet (callbacks)
-//!                                                | 8 / 9 set_stereotyp(on_panic_catch = true / false)
+//!                                                | 8 / 9 set_stereotyp(on_panic_catch = true / false, the other four flags = a%16)
 //!                                                | 10 schedule_at(now - (1 + b) ns, payload c): the library call panics ("less than the
 //!                                                  current simulation time")  | 11 send_at(gate a, now - (1 + b) ns, payload c): same
 //!                                                | 12 current().shutdow_and_restart_at(now - (1 + b) ns): same (since 09c7b16)
 //!                                                  -- panics raised by the API on behalf of the module; at now = 0 (where no past
-//!                                                  exists) the script panics itself instead                      (op%13)
+//!                                                  exists) the script panics itself instead
+//!                                                | 13 log the property "p" of module a%k, read through its ModuleRef (every module's
+//!                                                  "p" is 100 + its index, set before the run and never changed)
+//!                                                | 14 panic INSIDE a closure given to Prop::update (a even) / Prop::map (a odd) of the own
+//!                                                  property "p", i.e. while the property's lock is held (index out of bounds, before
+//!                                                  anything is written)
+//!                                                | 15 access the own property "p" again from inside a Prop::update closure: the library's
+//!                                                  own panic "Could not lock mutex on single thread"                 (op%16)
 //! inj    := kind m time payload                  kind%3: 0 handle_message_on(m) | 1 add_message_onto(m.out) | 2 ..(m.far)
 //!
 //! Output: 5 numbers per record
@@ -76,7 +85,13 @@ enum Act {
     RestartIn(u64),
     Panic,
     Quiet,
-    SetCatch(bool),
+    SetCatch(bool, u64),
+    /// log the property of another (or the own) module
+    PropRead(u64),
+    /// panic inside a Prop::update (false) / Prop::map (true) closure
+    PropPanic(bool),
+    /// re-entrant property access inside a Prop::update closure
+    PropReenter,
     /// schedule_at(now - (1 + d)) -- the library panics
     SchedPast(u64, u64),
     /// send_at(gate, now - (1 + d)) -- the library panics
@@ -90,6 +105,7 @@ type Prog = Vec<Act>;
 #[derive(Clone)]
 struct ModCfg {
     catch: bool,
+    flags: u64,
     join: u64,
     stages: u64,
     bud: u64,
@@ -101,7 +117,7 @@ struct ModCfg {
 
 fn quads(v: &[u64]) -> Prog {
     v.chunks_exact(4)
-        .map(|c| match c[0] % 13 {
+        .map(|c| match c[0] % 16 {
             0 => Act::Log(c[3]),
             1 => Act::Send(c[1] % 2 == 1, c[2], c[3]),
             2 => Act::Sched(c[2], c[3]),
@@ -110,11 +126,14 @@ fn quads(v: &[u64]) -> Prog {
             5 => Act::RestartIn(c[2]),
             6 => Act::Panic,
             7 => Act::Quiet,
-            8 => Act::SetCatch(true),
-            9 => Act::SetCatch(false),
+            8 => Act::SetCatch(true, c[1] % 16),
+            9 => Act::SetCatch(false, c[1] % 16),
             10 => Act::SchedPast(c[2], c[3]),
             11 => Act::SendPast(c[1] % 2 == 1, c[2], c[3]),
-            _ => Act::RestartPast(c[2]),
+            12 => Act::RestartPast(c[2]),
+            13 => Act::PropRead(c[1]),
+            14 => Act::PropPanic(c[1] % 2 == 1),
+            _ => Act::PropReenter,
         })
         .collect()
 }
@@ -134,6 +153,7 @@ fn blobs(c: &mut Cur) -> Vec<Prog> {
 fn dec_mod(c: &mut Cur) -> ModCfg {
     let hdr = c.next();
     let catch = hdr % 2 == 1;
+    let flags = (hdr / 16) % 16;
     let join = (hdr / 2) % 8;
     let stages = 1 + c.next() % 3;
     let bud = c.next();
@@ -141,7 +161,7 @@ fn dec_mod(c: &mut Cur) -> ModCfg {
     let msg = blobs(c);
     let tasks = blobs(c);
     let end = quads(&c.take_lp());
-    ModCfg { catch, join, stages, bud, start, msg, tasks, end }
+    ModCfg { catch, flags, join, stages, bud, start, msg, tasks, end }
 }
 
 /// Send / schedule / shutdown requests draw on the module's budget.  Returns false when the
@@ -183,12 +203,43 @@ fn simple(m: u64, who: u64, a: Act) {
                 current().shutdow_and_restart_in(Duration::from_nanos(d));
             }
         }
-        Act::SetCatch(b) => {
+        Act::SetCatch(b, f) => {
             log([19, m, who, b as u64, 0]);
-            current().set_stereotyp(Stereotyp { on_panic_catch: b, ..Stereotyp::HOST });
+            current().set_stereotyp(stereotyp(b, f));
         }
-        Act::Sleep(_) | Act::Panic | Act::Quiet | Act::SchedPast(..) | Act::SendPast(..) | Act::RestartPast(..) => {}
+        Act::PropRead(j) => {
+            let v = REFS.with(|r| {
+                let r = r.borrow();
+                let j = j as usize % r.len();
+                r[j].prop::<u64>("p").expect("prop").or_default().get()
+            });
+            log([7, m, who, v, 0]);
+        }
+        Act::Sleep(_)
+        | Act::Panic
+        | Act::Quiet
+        | Act::SchedPast(..)
+        | Act::SendPast(..)
+        | Act::RestartPast(..)
+        | Act::PropPanic(..)
+        | Act::PropReenter => {}
     }
+}
+
+/// all five public flags of a Stereotyp: on_panic_catch and, from the bits of f, the four that des never reads
+fn stereotyp(catch: bool, f: u64) -> Stereotyp {
+    Stereotyp {
+        on_panic_catch: catch,
+        on_panic_drop: f & 1 != 0,
+        on_panic_restart: f & 2 != 0,
+        on_panic_drop_submodules: f & 4 != 0,
+        on_panic_inform_parent: f & 8 != 0,
+    }
+}
+
+thread_local! {
+    /// the modules of the running simulation, for property reads across modules
+    static REFS: std::cell::RefCell<Vec<ModuleRef>> = const { std::cell::RefCell::new(Vec::new()) };
 }
 
 /// A call of the public API with a time stamp in the past: the library is expected to panic inside the call, i.e. inside
@@ -216,6 +267,26 @@ fn past_call(a: Act) {
     }
 }
 
+/// A panic that begins while the lock of the module's own property "p" is held: user code panicking inside a closure run
+/// by the library under the lock, or the library's own panic on a second lock attempt.  Nothing is written before the panic.
+/// If nothing panics the program simply goes on.
+fn locked_panic(a: Act) {
+    let mut p = current().prop::<u64>("p").expect("prop").or_default();
+    let empty: Vec<u64> = Vec::new();
+    match a {
+        Act::PropPanic(false) => {
+            p.update(|v| *v = empty[3]);
+        }
+        Act::PropPanic(true) => {
+            let _ = p.map(|_| empty[3]);
+        }
+        Act::PropReenter => {
+            p.update(|v| *v = current().prop::<u64>("p").expect("prop").or_default().get());
+        }
+        _ => {}
+    }
+}
+
 /// Stereotyp.on_panic_catch of the running module, as the public getter reports it right now
 fn catching() -> u64 {
     current().stereotyp().on_panic_catch as u64
@@ -233,6 +304,10 @@ fn run_callback(m: u64, p: &[Act]) {
             Act::SchedPast(..) | Act::SendPast(..) | Act::RestartPast(..) => {
                 log([11, m, 0, catching(), 0]);
                 past_call(a);
+            }
+            Act::PropPanic(..) | Act::PropReenter => {
+                log([11, m, 0, catching(), 0]);
+                locked_panic(a);
             }
             Act::Quiet => {
                 log([12, m, 0, 0, 0]);
@@ -296,6 +371,12 @@ async fn run_task(m: u64, id: u64, inc: u64, p: Prog, guard: Guard) {
                 log([20, m, id, inc, 1]);
                 guard.done.set(true);
                 past_call(a);
+            }
+            Act::PropPanic(..) | Act::PropReenter => {
+                log([11, m, 1 + id, catching(), 0]);
+                log([20, m, id, inc, 1]);
+                guard.done.set(true);
+                locked_panic(a);
             }
             Act::Quiet => {}
             a => simple(m, 1 + id, a),
@@ -400,8 +481,10 @@ fn simulate(mods: &[ModCfg], inj: &[(u64, u64, u64, u64)]) -> Vec<u64> {
         .map(|m| sim.get(&ObjectPath::from(names[m].as_str())).expect("module"))
         .collect();
     for m in 0..k {
-        refs[m].set_stereotyp(Stereotyp { on_panic_catch: mods[m].catch, ..Stereotyp::HOST });
+        refs[m].set_stereotyp(stereotyp(mods[m].catch, mods[m].flags));
+        refs[m].prop::<u64>("p").expect("prop").set(100 + m as u64);
     }
+    REFS.with(|r| *r.borrow_mut() = refs.clone());
 
     let mut rt = Builder::seeded(1).quiet().build(sim.freeze());
     for &(kind, m, t, x) in inj {
@@ -471,13 +554,14 @@ fn simulate(mods: &[ModCfg], inj: &[(u64, u64, u64, u64)]) -> Vec<u64> {
             out.extend([15, kind, m, code, 0]);
         }
     }
+    REFS.with(|r| r.borrow_mut().clear());
     drop(refs);
     out
 }
 
 fn quiet_prog(p: &mut Prog) {
     for a in p.iter_mut() {
-        if matches!(a, Act::Panic | Act::SchedPast(..) | Act::SendPast(..) | Act::RestartPast(..)) {
+        if matches!(a, Act::Panic | Act::SchedPast(..) | Act::SendPast(..) | Act::RestartPast(..) | Act::PropPanic(..) | Act::PropReenter) {
             *a = Act::Quiet;
         }
     }
